@@ -439,10 +439,13 @@ impl From<core::fmt::Error> for ProcessingError {
 }
 
 impl From<crate::punycode::PunycodeEncodeError> for ProcessingError {
-    fn from(_: crate::punycode::PunycodeEncodeError) -> Self {
-        unreachable!(
-            "Punycode overflows should not be possible due to PUNYCODE_ENCODE_MAX_INPUT_LENGTH"
-        );
+    fn from(e: crate::punycode::PunycodeEncodeError) -> Self {
+        match e {
+            crate::punycode::PunycodeEncodeError::Sink => ProcessingError::SinkError,
+            crate::punycode::PunycodeEncodeError::Overflow => unreachable!(
+                "Punycode overflows should not be possible due to PUNYCODE_ENCODE_MAX_INPUT_LENGTH"
+            ),
+        }
     }
 }
 
